@@ -50,6 +50,19 @@ pub fn rx_grown_mss(tier: Tier, depth: usize) -> Driver {
     d.cfg.rx_buf = 1200;
     // two reassembly slots (1200 / 528): a packet two ahead of the expected one does not fit whatever its size
     d.alphabet.retain(|a| *a != data(2));
+    // a duplicate and a new (larger) packet in one poll
+    d.alphabet.push(Act::Deliver2(pdata(-1), pdata(0)));
+    d
+}
+
+/// The same with the small payload first: the segment size grows with the second packet.
+pub fn rx_growing_mss(tier: Tier, depth: usize) -> Driver {
+    let mut d = rx_grown_mss(tier, depth);
+    d.name = "rx-growing-mss".into();
+    // (link MTU 1500: a single 1400-byte payload more than doubles the segment size)
+    d.cfg.link_mtu = 1500;
+    d.cfg.peer_lens = vec![100, 1400, 600];
+    d.cfg.rx_buf = 8000;
     d
 }
 
@@ -110,6 +123,17 @@ pub fn rx_reader_gone(tier: Tier, depth: usize) -> Driver {
         Act::Write(MSS),
         state(AckSpec::All, WndSpec::Default, SackSpec::None),
     ];
+    d
+}
+
+/// A full receive buffer, one more packet accepted on top (a zero-window probe: acknowledged, parked
+/// in the reassembly queue because the reader queue has no room) and the peer's FIN behind it.
+pub fn rx_probe_then_fin(tier: Tier, depth: usize) -> Driver {
+    let mut d = rx_rude(tier, depth);
+    d.name = "rx-probe-then-fin".into();
+    d.cfg.peer_lens = vec![MSS];
+    d.prefix = vec![data(0), data(0), data(0), data(0), Act::Deliver(Pkt::Fin { off: 0, ack: AckSpec::Cur })];
+    d.alphabet = vec![Act::Read(64), Act::Read(3), Act::Spurious, Act::Tick, Act::Deliver(Pkt::Fin { off: 0, ack: AckSpec::Cur }), Act::RepollReaderOtherTask];
     d
 }
 
@@ -665,7 +689,9 @@ pub fn run_and_report(ctx: &Ctx, d: &Driver, out: &mut Outcome) {
 pub fn all_drivers(tier: Tier) -> Vec<Driver> {
     let mut v = vec![rx(tier, 2, vec![MSS], 6), rx(tier, 4, vec![MSS, 1], 6), rx(tier, 4, vec![1, MSS], 6), rx(tier, 3, vec![MSS - 1], 6), rx_halfclosed(tier, 6), rx_rude(tier, 6)];
     v.push(rx_grown_mss(tier, 6));
+    v.push(rx_growing_mss(tier, 6));
     v.push(rx_reader_gone(tier, 6));
+    v.push(rx_probe_then_fin(tier, 6));
     v.push(rx_after_fin(tier, false, 5));
     v.push(rx_after_fin(tier, true, 5));
     v.push(tx_window(tier, true, 10, 6));
